@@ -30,12 +30,16 @@ RULE_ADDED = (
               'es long. '
               ' '
               'Round 12: relays with device chunk requests of 255, 254, 1..200 and random sizes'
-              '. ')
+              '. '
+              ' '
+              'Round 15: a transaction and its own cleared form, both with one compact size wri'
+              'tten the long way, are relayed alike. ')
 RULE = RULE + " " + RULE_ADDED.strip()
 ASSUMPTIONS = [
     "comm/bitcoin.py is exercised composed with the bitcoin.core shim in pv/shims "
     "(python-bitcoinlib is absent); the oracle shares no code with the shim",
-    "non-canonical varints and witness-serialised inputs are exercised for robustness only",
+    "non-canonical varints and witness-serialised inputs are exercised for robustness, and for "
+    "independence: a transaction and its cleared form, spelled alike, are relayed alike",
 ]
 FLOORS = {"quick": {"evaluations": 1500, "oracle_checks": 1500, "malformed_cases": 300,
                     "stack_relays": 40, "pairs": 200,
